@@ -229,6 +229,17 @@ func DrawCorruptMask(t *rapid.T, label string, md protoreflect.MessageDescriptor
 		c = cands[rapid.IntRange(0, len(cands)-1).Draw(t, label+".c")]
 	}
 	paths := []string{c.path}
+	// a corrupt path next to its own (valid) parent: as a set of fields the parent covers it, as a path it is as wrong
+	// as it is alone
+	if i := strings.LastIndex(c.path, "."); i > 0 && rapid.IntRange(0, 3).Draw(t, label+".withParent") == 1 {
+		if parent := c.path[:i]; ValidMask(md, &fieldmaskpb.FieldMask{Paths: []string{parent}}) {
+			if rapid.Bool().Draw(t, label+".parentFirst") {
+				paths = []string{parent, c.path}
+			} else {
+				paths = []string{c.path, parent}
+			}
+		}
+	}
 	// optionally surround with valid paths
 	if rapid.Bool().Draw(t, label+".more") {
 		all := CachedPaths(md)
